@@ -32,6 +32,7 @@ type rxInfo struct {
 	groups   []rxGroup // index 1..nsub
 	wholeClass *[256]bool // pattern is ^[class]+$ or ^[class]*$
 	wholeMin   int
+	minLen     int // minimal length of a match
 	err      error
 }
 
@@ -45,6 +46,7 @@ func analyseRegex(pat string) *rxInfo {
 	ri.nsub = re.MaxCap()
 	ri.groups = make([]rxGroup, ri.nsub+1)
 	re = re.Simplify()
+	ri.minLen, _ = lenRange(re)
 	// anchoring
 	if re.Op == syntax.OpConcat && len(re.Sub) >= 2 && re.Sub[0].Op == syntax.OpBeginText && re.Sub[len(re.Sub)-1].Op == syntax.OpEndText {
 		ri.anchored = true
@@ -456,6 +458,7 @@ func (g *Gen) rxFindAxioms(re, rs string, ri *rxInfo) {
 	var pos []Term
 	if ri.anchored {
 		pos = append(pos, eq(el(0), "s"))
+		pos = append(pos, fmt.Sprintf("(>= (str_len s) %d)", ri.minLen))
 	}
 	for k := 1; k <= ri.nsub; k++ {
 		gr := ri.groups[k]
